@@ -75,6 +75,14 @@ def gen_history(rnd, n=None):
                 ops.append(("REST", rnd.choice(["0", "5", "12", "40", "41"])))
             v = rnd.choice(["RETR", "RETR", "STOR", "APPE", "LIST", "MLSD"])
             ops.append((v, rnd.choice(PATHS), {"connect": rnd.choice(["before", "before", "after", "never"])}))
+            if rnd.random() < 0.25:
+                # silence on the established data connection (longer than wait_future_timeout in
+                # some cases): no timeout is configured for it, so the transfer just takes longer
+                if v in ("STOR", "APPE"):
+                    ops[-1][2]["chunks"] = [rnd.choice([1, 3]), 4]
+                    ops[-1][2]["pauses"] = [rnd.choice([0, 0.3, 2.0, 7.5]) for _ in range(rnd.randint(1, 4))]
+                else:
+                    ops[-1][2]["read_delay"] = rnd.choice([0.3, 2.0, 7.5])
             if rnd.random() < 0.3:
                 ops.append((v if rnd.random() < 0.5 else "RETR", rnd.choice(PATHS), {"connect": rnd.choice(["before", "after"])}))
         elif x < 0.88:
@@ -241,6 +249,7 @@ CORE = [
     [["USER", "anonymous"], ["REST", "5"], ["EPSV", ""], ["RETR", "f", {"connect": "before"}], ["EPSV", ""], ["RETR", "f", {"connect": "before"}]],
     [["USER", "anonymous"], ["EPSV", ""], ["REST", "5"], ["RETR", "f", {"connect": "before"}], ["RETR", "f", {"connect": "before"}]],
     [["USER", "anonymous"], ["EPSV", ""], ["REST", "3"], ["STOR", "f", {"connect": "after"}], ["RETR", "f", {"connect": "after"}]],
+    [["USER", "anonymous"], ["EPSV", ""], ["STOR", "new", {"connect": "before", "chunks": [3, 4], "pauses": [7.5, 0, 7.5, 2.0]}], ["RETR", "new", {"connect": "after", "read_delay": 7.5}], ["PWD", ""]],
     [["USER", "anonymous"], ["REST", "²"], ["PWD", ""]],
     [["USER", "anonymous"], ["REST", "9" * 5000], ["PWD", ""]],
     [["USER", "anonymous"], ["EPSV", ""], ["REST", "9" * 4301], ["RETR", "f", {"connect": "before"}], ["PWD", ""]],
